@@ -488,7 +488,7 @@ func checkC18(c *runCtx) {
 	// ---- cycle control
 	p := newVTPool()
 	defer p.close()
-	dl := c01deadline(c, 200, 1500)
+	dl := c01deadline(c, 240, 1500)
 	depth := 6
 	if !c.quick() {
 		depth = 8
